@@ -85,6 +85,8 @@ def run(facts, rep, ctx):
         slots = [s for s in enc.emissions(p) if not (len(s) > 2 and s[2] == "merge-into-existing")]
         n = len(slots)
         lo, hi = length_interval(classes, L)
+        if lo > hi:
+            continue          # contradictory length tests: not a path any length takes
         mx = {"len": (lo, hi), "disp": (1, W)}
         try:
             got = []
